@@ -1,3 +1,4 @@
 INIT TraceInit
 NEXT TraceNext
 INVARIANT TraceChecked
+CONSTANT HandsOverSendersMessage = FALSE
